@@ -184,6 +184,31 @@ CLAIMED.update({
         design='§5 C13'),
 })
 
+CLAIMED.update({
+    'C14': dict(
+        text='Lean model of the write_struct cache (typed keys, Python key equality incl. NaN / signed zero, zeros '
+             'bypassed, arbitrary eviction). Theorem history_independent: after ANY history of earlier encodings and '
+             'evictions, encoding a value returns what a fresh process returns (cache coherence invariant + '
+             'pyEq_eq: keys deemed equal encode identically). Tie: write_struct histories over colliding keys vs the '
+             'stateless Lean encoder; oracle: target specification written after other files / twice / after a '
+             'mutation vs a fresh subprocess.',
+        note='PARTIAL: per-object state that survives a write (values derived from data - known finding under C13 -, merged '
+             '_data_dict, sticky cast dtype) has no theorem; covered by the fresh-process oracle on generated histories. '
+             'The compatibility flag is C17.',
+        technique='Lean 4 proof (cache-coherence invariant over all histories) + correspondence + fresh-process oracle',
+        design='§5 C14'),
+    'C17': dict(
+        text='Theorems hc_restored (after any well-bracketed sequence of context entries/exits - nested, left by '
+             'exception, decorator - around arbitrary possibly-failing calls the flag and stack are as before), '
+             'hc_on_inside, names_restricted + hcChar_class, enum_restricted, breach_raises_iff, file_set_numbers, '
+             'pattern_pinned / enums_eq (generated tables). Tie: flag traces of random context shapes vs the model; '
+             'validate_string vs the class for every code point < 256; 11 aspects x met/breached x inside/outside.',
+        note='PARTIAL: the regex engine is trusted; completeness of the checks on the path to a successful write is tied '
+             'by the aspect matrix, not by a pipeline theorem.',
+        technique='Lean 4 proof (stack discipline by induction on bracketing + decision logic) + correspondence',
+        design='§5 C17'),
+})
+
 PENDING_REASON = 'check not built yet in this revision (model layer under construction); see DESIGN.md §12 build order'
 
 
